@@ -87,7 +87,7 @@ Proof.
     + intros b L. simpl in L. lia.
     + intros b _. reflexivity.
   - intros v r o H. unfold getv, init in H; simpl in H.
-    do 7 (destruct v as [|v]; simpl in H; try discriminate).
+    do 8 (destruct v as [|v]; simpl in H; try discriminate).
 Qed.
 
 Ltac adj_arith :=
@@ -275,12 +275,32 @@ Proof.
     + apply Inv_write_inplace; [exact I|split; assumption|]. rewrite Z.gtb_ltb in E. apply Z.ltb_ge in E. lia.
 Qed.
 
+(* the `type != T` branch: a new payload in every case *)
+Lemma Inv_retype f s v r o c : Inv s -> (v < length (vars s))%nat -> getv s v = VLive r o ->
+  Inv (retype f s v r c).
+Proof.
+  intros I Lv G. unfold retype.
+  assert (X : Inv (setv (release FVar (fst (alloc s 1 c 0)) r) v (both (HBlock (length (heap s)))))).
+  { destruct r as [|b].
+    - exact (Inv_alloc_store s v c 0 I Lv ltac:(intros; rewrite G; reflexivity)).
+    - exact (Inv_replace FVar s v b o c 0 I Lv G). }
+  destruct f; try exact X. exact (Inv_release_alloc FVar s v r o c 0 I Lv G).
+Qed.
+
+(* reading the text through a handle changes nothing (the block it refers to has not been released) *)
+Lemma touch_var_id s v : Inv s -> touch_var s v = s.
+Proof.
+  intros I. unfold touch_var. change (nth v (vars s) VDead) with (getv s v).
+  destruct (getv s v) as [|r o] eqn:G; [reflexivity|]. destruct r as [|b]; [reflexivity|].
+  destruct (Inv_live s v b o I G) as [[L F] R]. apply touch_live. exact F.
+Qed.
+
 Theorem step_Inv f s o : Inv s -> Inv (step f s o).
 Proof.
   intros I. pose proof I as [W C]. unfold step, step_gen. rewrite (wf_flt _ _ W).
   destruct (negb (forallb (fun v => Nat.ltb v (length (vars s))) (op_vars o))) eqn:B; [exact I|].
   apply negb_false_iff in B.
-  destruct o as [v n|v|d sv|d sv|d sv|v|a b|d sv|v c|v m|v|v|v n|v n]; cbn [op_vars forallb] in B;
+  destruct o as [v n|v|d sv|d sv|d sv|v|a b|d sv|v c|v m|v|v|v n|v n|v md|front d sv|v c]; cbn [op_vars forallb] in B;
   rewrite ?andb_true_r, ?andb_true_iff, ?Nat.ltb_lt in B.
   - (* OCreate *)
     destruct (getv s v) eqn:G; [|exact I].
@@ -424,6 +444,23 @@ Proof.
   - (* OReserve *)
     destruct f; try exact I; destruct (getv s v) as [|r o] eqn:G; try exact I.
     exact (Inv_str_detach s v r o (SReserve n) I B G).
+  - (* OStrMod: every modifier that is detach + write into the own block *)
+    destruct f; try exact I; destruct (getv s v) as [|r o] eqn:G; try exact I.
+    exact (Inv_str_detach s v r o md I B G).
+  - (* OStrCatV *)
+    destruct B as [Bd Bs].
+    destruct f; try exact I.
+    destruct (getv s d) as [|rd od] eqn:Gd; [exact I|].
+    destruct (getv s sv) as [|rs os] eqn:Gs; [exact I|].
+    assert (T : (match rs with HBlock b => touch s b | HNone => s end) = s).
+    { destruct rs as [|b]; [reflexivity|]. destruct (Inv_live s sv b os I Gs) as [[L F] R]. apply touch_live; exact F. }
+    rewrite T.
+    pose proof (Inv_str_detach s d rd od (SCat front (match rs with HBlock b => val (getb s b) | HNone => 0 end)) I Bd Gd) as I2.
+    rewrite (touch_var_id _ sv I2). exact I2.
+  - (* ORetype *)
+    destruct f; try exact I; destruct (getv s v) as [|r o] eqn:G; try exact I.
+    + exact (Inv_retype FVar s v r o c I B G).
+    + exact (Inv_retype FXml s v r o c I B G).
 Qed.
 
 Theorem run_Inv f ops : Inv (run f ops).
@@ -554,7 +591,7 @@ Ltac ext_go :=
 
 Theorem step_ext obj_only f s o : ext s (step_gen obj_only f s o).
 Proof.
-  unfold step_gen, str_detach, var_detach, assign_val, ptr_swap, alloc. cbv zeta. ext_go.
+  unfold step_gen, str_detach, var_detach, assign_val, retype, touch_var, ptr_swap, alloc. cbv zeta. ext_go.
 Qed.
 
 Lemma run_from_ext f ops s : ext s (fold_left (step f) ops s).
